@@ -8,6 +8,8 @@ import (
 	"go/types"
 	"os"
 	"os/exec"
+	"os/signal"
+	"syscall"
 	"path/filepath"
 	"regexp"
 	"runtime/debug"
@@ -640,6 +642,13 @@ func main() {
 	flag.StringVar(&repoDir, "repo", "/repo", "")
 	flag.StringVar(&verifDir, "verif", "/verif", "")
 	debug.SetGCPercent(600)
+	sigc := make(chan os.Signal, 1)
+	signal.Notify(sigc, syscall.SIGTERM, syscall.SIGINT)
+	go func() {
+		<-sigc
+		killAllSolvers()
+		os.Exit(3)
+	}()
 	cpuprof := flag.String("cpuprofile", "", "write cpu profile")
 	flag.Parse()
 	if *cpuprof != "" {
